@@ -8,12 +8,20 @@ TEXT = {
  "C05": ("model_checking", "After every call the written lines (bag, tags as sets), header, placeholders and back-references of the real Gfa must equal those of the text-level Step of Gfa.tla (exact removal closure, dropped mentions, rename substitution); histories enumerated exhaustively by TLC up to the depth bound plus random ones.", "5 C05"),
  "C08": ("model_checking", "FailStutters is an action property of MC_Gfa checked by TLC; in every validated trace an event whose call raised must have an observation digest identical to the previous one (full projection: lines, references, back-references, header, version, names, lookups, topology).", "5 C08"),
  "C09": ("model_checking", "UniqueIds invariant on the spec; on every recorded state the name lists and line()/segment()/try_get_line() for every identifier of the universe are compared with the document; add/rename onto a used identifier must return NotUniqueError.", "5 C09"),
+ "C03": ("model_checking", "MC_Arrival: TLC enumerates every valid document (subset of the catalogue within size bounds, validity decided in TLA+) and every arrival order, checks confluence on the specification, and every order is replayed with add_line, observed after every delivery and validated against the document functions; strict documents are also compared by the digest of the complete object graph across orders (TracePerm).", "5 C03"),
+ "C04": ("exploration", "Lex.tla recognisers written from the GFA grammars; TLC enumerates all short strings over per-datatype alphabets, single-point mutations of valid strings, line-level arity/tag combinations and document-level rule violations; every case is offered to gfapy at validation levels 1-3 and TLC (TraceLex) compares acceptance with the grammar verdict. Bounded language equality, not a proof.", "5 C04"),
+ "C06": ("exploration", "Convert.tla pure functions with round-trip laws checked by TLC; every enumerated L/C/E/P/O case (all orientations, asymmetric CIGARs, offsets, self-links, paths) converted by gfapy at line and graph level and compared by TLC with the specification; output must load at vlevel 3.", "5 C06"),
+ "C07": ("exploration", "The result class of every call of the lexical enumerations (all short texts, single-point mutations of valid lines/documents, string-taking API) is validated by TLC: FOREIGN (not derived from gfapy.Error, or watchdog timeout) is in no allowed outcome.", "5 C07"),
+ "C10": ("model_checking", "Step(query) leaves the document unchanged; in every state reached by TLC-enumerated and random histories 13 query groups are run twice: the digest of the complete observation must be unchanged and answers repeatable.", "5 C10"),
+ "C11": ("model_checking", "EdgeClass.tla (independent reading of the GFA2 text) enumerated exhaustively for all 400 cells of a length-3 segment; symmetry laws checked by TLC; every cell loaded into gfapy in three arrival orders (+ rename, unrelated removal) and the back-reference collections, neighbour lists and edge types compared by TLC.", "5 C11"),
+ "C12": ("model_checking", "CIGAR algebra laws (involution, length exchange) checked by TLC over all 2955 CIGARs; complement(), equivalence tests and lengths of the real Link compared by TLC (TraceLink) for every CIGAR x 8 endpoint shapes; history level: complement of a stored link is a no-op, path flags in every arrival order.", "5 C12"),
+ "C13": ("model_checking", "MC_Version: operational version machine of Gfa.tla = declarative verdict of Version.tla for every order of every set of <= D line kinds (TLC invariant Agrees); every order replayed incrementally and through Gfa(list|str)/from_file.", "5 C13"),
  "C16": ("model_checking", "connected_components and the four counters logged after every call of every history are compared by TLC with Components/NDovetails/... of the document state.", "5 C16"),
 }
 
 
 # properties whose checks are finished and reviewed; everything else is listed as not yet claimed
-RELEASED = ["C02", "C03", "C05", "C08", "C09", "C10", "C11", "C12", "C13", "C16"]
+RELEASED = ["C02", "C03", "C04", "C05", "C06", "C07", "C08", "C09", "C10", "C11", "C12", "C13", "C16"]
 
 
 def main():
